@@ -57,6 +57,8 @@ class FS:
 
     def open(self, name, mode="r", *a, **k):
         m = mode.replace("t", "")
+        if name.startswith("~"):
+            raise FileNotFoundError(name)  # an unexpanded '~' is an ordinary (missing) directory name for open()
         self._event("open-" + m, name)
         if m == "r":
             if name not in self.files:
@@ -90,7 +92,11 @@ class _Path:
     def realpath(self, name):
         return name
 
+    HOME = "/home/u"
+
     def expanduser(self, name):
+        if name == "~" or name.startswith("~/"):
+            return self.HOME + name[1:]
         return name
 
     join = staticmethod(posixpath.join)
